@@ -107,6 +107,10 @@ func c09Run(t *testing.T, r *vRand, mb, nev int, kind int) *cfsCtl {
 			}
 		}
 	}
+	if kind == 1 && strings.Contains(txt, "./d/e ") && r.Chance(2, 3) && !c.dead {
+		c.runOp(func() { c.se.probeNested(r, c.addOp) })
+		c.completeAll()
+	}
 	if kind == 2 {
 		// load and save unchanged
 		c.marshal()
